@@ -246,6 +246,22 @@ def run(ctx, rec):
         rec.violation("ill-formed-series-pair-accepted", "Series(R, conns=('p', 'p'), nser=2) was built and exported", case={"gen": "Series", "probe": "same-port"})
     except Exception:
         pass
+    # ... for EVERY number in series (nser = 1 builds a plain wrapper, which never looks at the pair by itself)
+    e3 = [u for u in unit_specs() if u[0] == "E3"]
+    for n in (1, 2, 3):
+        for what, mk in (("one port twice", lambda n=n: Series(unit=build.leaf_call("R", 5), conns=("p", "p"), nser=n)),
+                         ("a port the unit does not have", lambda n=n: Series(unit=build.leaf_call("R", 5), conns=("p", "zz"), nser=n)),
+                         ("MosStack of a unit without d / s", lambda n=n: MosStack(unit=build.leaf_call("R", 5), nser=n)),
+                         ("series ports of unequal widths", (lambda n=n: Series(unit=real_unit(e3[0][1], e3[0][2]), conns=("p", "r"), nser=n)) if e3 else None),
+                         ("a bundle-valued series port", lambda n=n: Series(unit=real_unit(ub[1], ub[2]), conns=("a", "bp"), nser=n))):
+            if mk is None:
+                continue
+            rec.count("probe.ill-formed-pairs")
+            try:
+                h.to_proto(mk())
+                rec.violation("ill-formed-series-pair-accepted", f"Series / MosStack with {what}, nser={n}, was built and exported", case={"gen": "Series", "probe": what, "n": n})
+            except Exception:
+                pass
     rec.exhaustive = True
     rec.extra["N"] = N
 
